@@ -72,7 +72,7 @@ PROPS = {
     ),
     "C03": dict(
         thm=["Bgpfu.Thm.C03"],
-        ops=[("plan", ["prop=C03", "variant=fixed"])],
+        ops=[("plan", ["prop=C03", "variant=fixed"]), ("evalseq", ["c03", "fixed"])],
         level_text="Theorems: a candidate whose evaluation failed gets neither update nor delete and its installed policy is "
                    "literally unchanged after the run -- for every variant of the code, every configuration and every order of the "
                    "updates (failed_eval_no_update, failed_eval_untouched); deletes only for installed non-candidates "
@@ -184,9 +184,9 @@ PROPS = {
                    "and the evaluator stays usable. For the code as it is (Cfg.pinned) the counter-examples "
                    "peeras_panics_cex / aspath_attr_panic_cex show the abort. Correspondence: mixed policy sets through "
                    "Policies<Candidate>::evaluate (H3) under catch_unwind, and sequences on one RpslEvaluator across panics.",
-        level_note="Evaluator part only: the model's `abort` is the panic of the evaluation task; that handle_task then fails the "
-                   "whole run before any load/commit (task.rs:57-82,183-189) is the agent-run model's part — the ops list is to be "
-                   "extended with the end-to-end agent run (fake Junos + fake IRRd; which policies were updated, exit status). "
+        level_note="The theorems are about the evaluator model; the end-to-end clause (the other policies ARE updated, the run "
+                   "completes) is observed by the agentrun c15 family: the real Updater::run against the fake Junos and the fake "
+                   "IRRd with one candidate of each unsupported construct among ordinary ones. "
                    "Evaluation order inside Policies::evaluate is the HashMap's (random per run); the theorem covers all orders, the "
                    "harness observes whichever orders occur. Spec classes: panic-peeras, panic-aspath-regex, panic-attr-match (D11).",
         rule="policy sets of 2–4 members mixing evaluable expressions, unknown as-/route-/filter-sets, PeerAS, `<^AS…>`, "
@@ -224,7 +224,7 @@ PROPS = {
                    "transports are closed/aborted at scripted points with a watchdog and thread-CPU measurement.",
         level_note="Bounded time is proved as bounded loop iterations (one per read event); wall-clock bound and absence of CPU "
                    "spin are observed (watchdog), not proved. Session-level propagation to reply futures is covered by the "
-                   "session model once C05 is claimed.",
+                   "session model (Thm/C05 close_fails_all_waiters…, sched only-close schedules).",
         rule="as C06, restricted interest: cases whose peer closes (EOF) or aborts at idle / mid-message / "
              "mid-delimiter / before any byte; watchdog + thread CPU time distinguish blocked from spinning",
         trusted=["a 0-byte read_buf means EOF and EOF is sticky", "wall-clock bound observed by watchdog only"],
